@@ -48,7 +48,8 @@ def hist_case(rng):
     doc = {"r": sub, "q": M.deep_copy(sub), "s": 3}
     rules = [rule_term(rng, sub, rng.choice([None, [["str", "int"]], [["str", "bool"]]])) for _ in range(rng.randint(1, 3))]
     root = rng.choice([[{"p": "prim", "v": "r"}], [{"p": "prim", "v": "q"}], [{"p": "map"}], [{"p": "prim", "v": "zz"}]])
-    return {"rules": rules, "doc": doc, "hist": {"root": root, "serialise_first": rng.random() < 0.8}}
+    own = [rule_term(rng, doc, rng.choice([None, None, [["str", "int"]]])) for _ in range(rng.randint(0, 2))]
+    return {"rules": rules, "doc": doc, "hist": {"root": root, "serialise_first": rng.random() < 0.8, "own": own}}
 
 
 def strata(tier):
@@ -137,7 +138,8 @@ def run_hist(case, ctx):
         call(T.to_json_like)
         for o in objs:
             call(o.to_json_like)
-    S = valida.Schema([])
+    own = h.get("own", [])
+    S = valida.Schema([build.rule_obj(r) for r in own])
     root = build.path_obj(PC.mkpath(h["root"]))
     ok, e = call(S.add_schema, T, root)
     if not ok:
@@ -151,7 +153,7 @@ def run_hist(case, ctx):
     a, b = schema_beh(S, doc), schema_beh(back, doc)
     if a != b:
         ctx.violate("C13/behaviour/schema/history", f"after serialise -> add_schema -> round trip: original {str(a)[:300]}\n rebuilt {str(b)[:300]}\n json: {json.dumps(j)[:600]}")
-    terms = [dict(r, path=PC.mkpath(h["root"] + r["path"]["parts"])) for r in M.sort_rules(list(rules))]
+    terms = M.sort_rules(list(own)) + [dict(r, path=PC.mkpath(h["root"] + r["path"]["parts"])) for r in M.sort_rules(list(rules))]
     m = M.schema_model(terms, doc)
     if m is not M.SKIP and b[0] != "raise" and (b[0] is not m["valid"] or b[3] != canon(m["cast_data"])):
         ctx.violate("C13/behaviour-vs-model/schema/history", f"rebuilt schema verdict {b[0]} / cast data differ from the model of the re-rooted rules; json: {json.dumps(j)[:600]}")
@@ -194,6 +196,10 @@ def run(case, ctx):
     ok, s = call(valida.Schema, list(objs))
     if ok:
         ctail = "cast=" + "+".join(sorted(casts))
+        if len(repr(rules)) % 2:
+            # history: the schema has already been used to validate before it is serialised and compared
+            call(s.validate, M.deep_copy(doc))
+            ctx.count("validated-before-round-trip")
         res = roundtrip(ctx, s, valida.Schema, "schema", ctail)
         for c in casts:
             ctx.count(f"schema:cast={c}")
